@@ -351,36 +351,41 @@ func c12Run(c *core.Ctx) {
 	for s := int64(0); s <= grid; s++ {
 		a = append(a, cueShape{s, s + 1, "x"}, cueShape{s, s + 3, "x"}) // equal starts with different ends: the end is no tie-breaker
 	}
-	enumLists(a, maxN, false, false, func(l0 lm.List) bool {
-		if !c.Mine() {
-			return true
-		}
-		l := decorate(l0.Scale(ms))
-		exp, key, msg := checkOrder(l)
-		c.Transitions++
-		c.Traces++
-		c.State(core.Hash64(l.Key()))
-		nt := uint64(0)
-		if !lm.Equal(exp, l) {
-			nt = core.Hash64("order", l.Key())
-		}
-		cas := func() interface{} { return opCase{Op: "order", Unit: ms, List: l.Clone()} }
-		c.Record("order", core.Hash64(fmt.Sprint(exp)), nt, cas)
-		if key != "" {
-			c.Violate("order", key, msg, cas(), len(l))
-		}
-		if len(l) >= 2 && len(l) <= 3 {
-			for edit := 0; edit < 3; edit++ {
-				k2, m2 := checkOrderAgain(l, edit)
-				c.Transitions++
-				c.Record("order.again", core.Hash64(k2), core.Hash64("again", l.Key(), fmt.Sprint(edit)), nil)
-				if k2 != "" {
-					c.Violate("order", k2, m2, opCase{Op: "order-again", Unit: ms, List: l.Clone(), P: []int64{int64(edit)}}, len(l)+10)
+	// units: 1 ms, and two that put several distinct starts inside one millisecond (an order decided on truncated
+	// times would see ties where there are none)
+	for _, ounit := range []int64{ms, 300000, 1} {
+		ounit := ounit
+		enumLists(a, maxN, false, false, func(l0 lm.List) bool {
+			if !c.Mine() {
+				return true
+			}
+			l := decorate(l0.Scale(ounit))
+			exp, key, msg := checkOrder(l)
+			c.Transitions++
+			c.Traces++
+			c.State(core.Hash64(l.Key()))
+			nt := uint64(0)
+			if !lm.Equal(exp, l) {
+				nt = core.Hash64("order", l.Key())
+			}
+			cas := func() interface{} { return opCase{Op: "order", Unit: ounit, List: l.Clone()} }
+			c.Record("order", core.Hash64(fmt.Sprint(exp)), nt, cas)
+			if key != "" {
+				c.Violate("order", key, msg, cas(), len(l))
+			}
+			if len(l) >= 2 && len(l) <= 3 {
+				for edit := 0; edit < 3; edit++ {
+					k2, m2 := checkOrderAgain(l, edit)
+					c.Transitions++
+					c.Record("order.again", core.Hash64(k2), core.Hash64("again", l.Key(), fmt.Sprint(edit)), nil)
+					if k2 != "" {
+						c.Violate("order", k2, m2, opCase{Op: "order-again", Unit: ms, List: l.Clone(), P: []int64{int64(edit)}}, len(l)+10)
+					}
 				}
 			}
-		}
-		return true
-	})
+			return true
+		})
+	}
 	// Order: every list of 13 cues with starts in {0,1} (quick) / 12 cues with {0,1,2} and 13 with {0,1} (thorough):
 	// pdqsort falls back to insertion sort below 13 elements, so only n >= 13 can tell a stable sort from an unstable one.
 	type big struct{ n, k int }
@@ -426,6 +431,13 @@ func c12Run(c *core.Ctx) {
 	mN := 3
 	var lists []lm.List
 	enumLists([]cueShape{a[0], a[2], a[4]}, mN, false, false, func(l lm.List) bool { lists = append(lists, l.Scale(ms)); return true })
+	// and the two-cue lists again with several distinct starts inside one millisecond
+	enumLists([]cueShape{a[0], a[2], a[4]}, 2, false, false, func(l lm.List) bool {
+		if len(l) > 0 {
+			lists = append(lists, l.Scale(300000))
+		}
+		return true
+	})
 	for _, A := range lists {
 		for _, B := range lists {
 			for recv := 0; recv < 3; recv++ {
